@@ -33,34 +33,45 @@ def _str_const(n) -> Optional[str]:
     return n.value if isinstance(n, ast.Constant) and isinstance(n.value, str) else None
 
 
+def _with_var(fn_node, pred) -> Tuple[Optional[ast.With], Optional[str]]:
+    """(with-statement, name bound by `as`) of the first with whose context expression satisfies pred"""
+    for nd in ast.walk(fn_node):
+        if isinstance(nd, ast.With) and nd.items and isinstance(nd.items[0].context_expr, ast.Call) and \
+                pred(nd.items[0].context_expr) and isinstance(nd.items[0].optional_vars, ast.Name):
+            return nd, nd.items[0].optional_vars.id
+    return None, None
+
+
 def fcidump(ctx):
+    """Writer/reader agreement for FCIDUMP_chol.  Local variable names carry no meaning here: datasets are matched by
+    their string keys, header fields by the parameter of write_dqmc they are built from (writer) and by the way they
+    are used (reader: (N + |M|)//2 electron split, reshape(K, K))."""
     p = ctx.p
     wd = p.func("pyscf_interface.write_dqmc")
     rd = p.func("mpi_jax._prep_afqmc")
+    wparams = [x.name for x in wd.params]
+    wblock, wf = _with_var(wd.node, lambda c: (dotted(c.func) or "").endswith("File"))
+    if wf is None:
+        raise AnalysisError("write_dqmc no longer opens an h5py.File in a with block")
     written: Dict[str, ast.AST] = {}
     for nd in ast.walk(wd.node):
         if isinstance(nd, ast.Assign) and isinstance(nd.targets[0], ast.Subscript) and \
-                isinstance(nd.targets[0].value, ast.Name) and nd.targets[0].value.id == "fh5":
+                isinstance(nd.targets[0].value, ast.Name) and nd.targets[0].value.id == wf:
             k = _str_const(nd.targets[0].slice)
             if k:
                 written[k] = nd.value
-    read: Dict[str, ast.AST] = {}
-    # only the block that opens FCIDUMP_chol
-    fblock = None
-    for nd in ast.walk(rd.node):
-        if isinstance(nd, ast.With) and nd.items and isinstance(nd.items[0].context_expr, ast.Call) and \
-                nd.items[0].context_expr.args and _str_const(nd.items[0].context_expr.args[0]) == "FCIDUMP_chol":
-            fblock = nd
+    fblock, rf = _with_var(rd.node, lambda c: bool(c.args) and _str_const(c.args[0]) == "FCIDUMP_chol")
     if fblock is None:
         raise AnalysisError("_prep_afqmc no longer opens FCIDUMP_chol")
+    read: Dict[str, ast.AST] = {}
     header_targets = None
     for nd in ast.walk(fblock):
-        if isinstance(nd, ast.Subscript) and isinstance(nd.value, ast.Name) and nd.value.id == "fh5":
+        if isinstance(nd, ast.Subscript) and isinstance(nd.value, ast.Name) and nd.value.id == rf:
             k = _str_const(nd.slice)
             if k:
                 read[k] = nd
         if isinstance(nd, ast.Call) and isinstance(nd.func, ast.Attribute) and nd.func.attr == "get" and \
-                isinstance(nd.func.value, ast.Name) and nd.func.value.id == "fh5" and nd.args:
+                isinstance(nd.func.value, ast.Name) and nd.func.value.id == rf and nd.args:
             k = _str_const(nd.args[0])
             if k:
                 read[k] = nd
@@ -70,16 +81,52 @@ def fcidump(ctx):
     missing = sorted(k for k in read if k not in written)
     ctx.ob("KEYS-2", "FCIDUMP_chol: every dataset the reader opens is written", not missing and len(read) >= 4,
            f"reader opens {sorted(read)}; writer creates {sorted(written)}" + (f"; missing {missing}" if missing else ""), rd)
-    # header order
+    # header: writer roles from the parameters, reader roles from the uses
     hw = written.get("header")
-    w_elts = []
+    w_roles = []
     if isinstance(hw, ast.Call) and hw.args and isinstance(hw.args[0], (ast.List, ast.Tuple)):
-        w_elts = [ast.unparse(e) for e in hw.args[0].elts]
-    alias = {"chol.shape[0]": "nchol"}
-    w_names = [alias.get(e, e) for e in w_elts]
+        for e in hw.args[0].elts:
+            if isinstance(e, ast.Name) and e.id in wparams:
+                w_roles.append(e.id)
+            elif isinstance(e, ast.Subscript) and isinstance(e.value, ast.Attribute) and e.value.attr == "shape" and \
+                    isinstance(e.value.value, ast.Name) and e.value.value.id in wparams and \
+                    isinstance(e.slice, ast.Constant) and e.slice.value == 0:
+                w_roles.append("n" + e.value.value.id)
+            else:
+                w_roles.append("?")
+    r_roles: Dict[str, str] = {}
+    split_ok = False
+    for nd in ast.walk(rd.node):
+        # ((N + abs(M)) // 2, (N - abs(M)) // 2)
+        if isinstance(nd, ast.Tuple) and len(nd.elts) == 2 and all(
+                isinstance(e, ast.BinOp) and isinstance(e.op, ast.FloorDiv) and isinstance(e.right, ast.Constant)
+                and e.right.value == 2 and isinstance(e.left, ast.BinOp) for e in nd.elts):
+            l0, l1 = nd.elts[0].left, nd.elts[1].left
+
+            def parts(x):
+                if isinstance(x.left, ast.Name) and isinstance(x.right, ast.Call) and dotted(x.right.func) in (
+                        "abs", "np.abs", "numpy.abs") and x.right.args and isinstance(x.right.args[0], ast.Name):
+                    return x.left.id, x.right.args[0].id, type(x.op).__name__
+                return None
+            p0, p1 = parts(l0), parts(l1)
+            if p0 and p1 and p0[:2] == p1[:2] and (p0[2], p1[2]) == ("Add", "Sub"):
+                r_roles[p0[0]] = "nelec"
+                r_roles[p0[1]] = "ms"
+                split_ok = True
+    shape_names = set()
+    for nd in ast.walk(fblock):
+        if isinstance(nd, ast.Call) and isinstance(nd.func, ast.Attribute) and nd.func.attr == "reshape":
+            for a_ in nd.args:
+                if isinstance(a_, ast.Name):
+                    shape_names.add(a_.id)
+    if len(shape_names) == 1:
+        r_roles[next(iter(shape_names))] = "nmo"
+    reader_roles = [r_roles.get(h, "nchol" if k_ == 3 else "?") for k_, h in enumerate(header_targets or [])]
     ctx.ob("KEYS-2", "FCIDUMP_chol: header fields are packed and unpacked in the same order",
-           header_targets is not None and w_names == header_targets and len(w_names) == 4,
-           f"writer packs {w_elts}; reader unpacks {header_targets}", wd)
+           header_targets is not None and w_roles == ["nelec", "nmo", "ms", "nchol"] and reader_roles == w_roles,
+           f"writer packs {w_roles}; reader uses its four header values as {reader_roles}", wd)
+    nmo_name = next(iter(shape_names)) if len(shape_names) == 1 else None
+
     # layout
     def flat(k):
         v = written.get(k)
@@ -89,30 +136,25 @@ def fcidump(ctx):
     def reshaped(k, want):
         for nd in ast.walk(fblock):
             if isinstance(nd, ast.Call) and isinstance(nd.func, ast.Attribute) and nd.func.attr == "reshape":
-                if f'"{k}"' in ast.unparse(nd.func.value) or f"'{k}'" in ast.unparse(nd.func.value):
-                    return [ast.unparse(a) for a in nd.args] == want
+                if any(_str_const(c) == k for c in ast.walk(nd.func.value)):
+                    return [ast.unparse(a_) for a_ in nd.args] == want
         return False
 
     chol_2d = any(isinstance(nd, ast.Assert) and "len(chol.shape) == 2" in ast.unparse(nd.test)
                   for nd in ast.walk(wd.node))
     ctx.ob("KEYS-2", "FCIDUMP_chol: hcore written flat row-major, read back as (nmo, nmo)",
-           flat("hcore") and reshaped("hcore", ["nmo", "nmo"]), "flatten() <-> reshape(nmo, nmo)", wd)
+           flat("hcore") and nmo_name is not None and reshaped("hcore", [nmo_name, nmo_name]),
+           "flatten() <-> reshape(nmo, nmo)", wd)
     ctx.ob("KEYS-2", "FCIDUMP_chol: chol (nchol, nmo^2) written flat, read back as (-1, nmo, nmo)",
-           flat("chol") and chol_2d and reshaped("chol", ["-1", "nmo", "nmo"]),
+           flat("chol") and chol_2d and nmo_name is not None and reshaped("chol", ["-1", nmo_name, nmo_name]),
            "flatten() of a 2-D array <-> reshape(-1, nmo, nmo)", wd)
-    # the hcore that is read is the bare one-body matrix, not the modified one
+    # the hcore that is read is the bare one-body matrix, not the modified one (parameters of write_dqmc)
     ctx.ob("KEYS-2", "FCIDUMP_chol: dataset 'hcore' holds the parameter hcore (not hcore_mod)",
            isinstance(written.get("hcore"), ast.Call) and ast.unparse(written["hcore"].func.value) == "hcore",
-           f"fh5['hcore'] = {ast.unparse(written['hcore']) if 'hcore' in written else '?'}", wd)
+           f"file['hcore'] = {ast.unparse(written['hcore']) if 'hcore' in written else '?'}", wd)
     ctx.ob("KEYS-2", "FCIDUMP_chol: dataset 'energy_core' holds enuc", "energy_core" in written and
            ast.unparse(written["energy_core"]) == "enuc", "", wd)
-    # electron counts
-    ok = False
-    for nd in ast.walk(rd.node):
-        if isinstance(nd, ast.Assign) and isinstance(nd.targets[0], ast.Name) and nd.targets[0].id == "nelec_sp":
-            s = ast.unparse(nd.value).replace(" ", "")
-            ok = s == "((nelec+abs(ms))//2,(nelec-abs(ms))//2)"
-    ctx.ob("KEYS-2", "_prep_afqmc: (n_up, n_dn) = ((N + |ms|)//2, (N - |ms|)//2)", ok, "", rd)
+    ctx.ob("KEYS-2", "_prep_afqmc: (n_up, n_dn) = ((N + |ms|)//2, (N - |ms|)//2)", split_ok, "", rd)
 
 
 def npz_files(ctx):
@@ -158,26 +200,83 @@ def npz_files(ctx):
             ctx.ob("KEYS-2", f"amplitudes.npz: branch for trial '{kind}' exists on both sides", False,
                    "branch missing", rd)
             continue
-        rk = set()
+        # the variable bound to np.load("amplitudes.npz") in this branch, whatever it is called
+        amp_var = None
         for nd in ast.walk(br):
-            if isinstance(nd, ast.Subscript) and isinstance(nd.value, ast.Name) and nd.value.id == "amplitudes":
+            if isinstance(nd, ast.Assign) and isinstance(nd.targets[0], ast.Name) and isinstance(nd.value, ast.Call) and \
+                    (dotted(nd.value.func) or "").endswith("load") and nd.value.args and \
+                    _str_const(nd.value.args[0]) == "amplitudes.npz":
+                amp_var = nd.targets[0].id
+        rk = set()
+        src_key: Dict[str, str] = {}       # local variable -> npz key it was loaded from
+        for nd in ast.walk(br):
+            if isinstance(nd, ast.Subscript) and isinstance(nd.value, ast.Name) and nd.value.id == amp_var:
                 k = _str_const(nd.slice)
                 if k:
                     rk.add(k)
+            if isinstance(nd, ast.Assign) and isinstance(nd.targets[0], ast.Name):
+                ks = [_str_const(x.slice) for x in ast.walk(nd.value) if isinstance(x, ast.Subscript)
+                      and isinstance(x.value, ast.Name) and x.value.id == amp_var and _str_const(x.slice)]
+                if len(ks) == 1:
+                    src_key[nd.targets[0].id] = ks[0]
         ctx.ob("KEYS-2", f"amplitudes.npz: arrays read for trial '{kind}' are the arrays written", bool(rk) and
                rk <= wsave[1], f"reads {sorted(rk)}; writer stores {sorted(wsave[1])}", rd)
-        # name affinity variable <-> array name
-        bad = [kv for kv in wsave[3].split(",") if kv.split("=")[0] != kv.split("=")[1]]
-        ctx.ob("KEYS-2", f"amplitudes.npz: each array is stored under its own name ('{kind}')", not bad,
-               f"{wsave[3]}", pa, wsave[2])
-        # wave_data keys <-> local variables
+        # wave_data keys <-> npz keys: entry 'ci2AB' must carry the array loaded from 'ci2ab' (string keys, not variable names)
         for nd in ast.walk(br):
             if isinstance(nd, ast.Dict):
-                pairs = [(k.value, ast.unparse(v)) for k, v in zip(nd.keys, nd.values)
-                         if isinstance(k, ast.Constant)]
-                badp = [f"{k}: {v}" for k, v in pairs if k != "mo_coeff" and k.lower() != v.lower()]
+                pairs = []
+                for k, v in zip(nd.keys, nd.values):
+                    if isinstance(k, ast.Constant) and isinstance(k.value, str) and k.value != "mo_coeff":
+                        pairs.append((k.value, src_key.get(v.id) if isinstance(v, ast.Name) else (
+                            next((_str_const(x.slice) for x in ast.walk(v) if isinstance(x, ast.Subscript)
+                                  and isinstance(x.value, ast.Name) and x.value.id == amp_var), None))))
+                badp = [f"{k} <- {v}" for k, v in pairs if v is None or k.lower() != v.lower()]
                 ctx.ob("KEYS-2", f"_prep_afqmc: wave_data entries of trial '{kind}' carry the arrays they are named for",
-                       not badp, f"{pairs}", rd, nd.lineno)
+                       not badp and bool(pairs), f"{pairs}", rd, nd.lineno)
+    amplitude_provenance(ctx)
+
+
+def amplitude_provenance(ctx):
+    """KEYS-2 on the writer side, by provenance on the value graph of prep_afqmc: the array stored under 'ci1a' is
+    built from cc.t1[0], 'ci2ab' from cc.t2[1] (+ t1[0] x t1[1]) etc. -- decided from the terms, not from what the
+    local variables are called."""
+    from ..symex import Evaluator, call_parts, func_name, strip_wrappers, subterms
+    p = ctx.p
+    pa = p.func("pyscf_interface.prep_afqmc")
+    ev = Evaluator(p)
+    ev.eval_function(pa)
+    want = {"ci1": ({"t1": {None}}, set()), "ci2": ({"t2": {None}, "t1": {None}}, set()),
+            "ci1a": ({"t1": {0}}, set()), "ci1b": ({"t1": {1}}, set()),
+            "ci2aa": ({"t2": {0}, "t1": {0}}, set()), "ci2bb": ({"t2": {2}, "t1": {1}}, set()),
+            "ci2ab": ({"t2": {1}, "t1": {0, 1}}, set())}
+    seen_keys = set()
+    for e in ev.events:
+        if e.kind != "call" or not (func_name(e.data) or "").endswith("savez"):
+            continue
+        _, pos, kws = call_parts(e.data)
+        if not pos or not (pos[0].op == "const" and pos[0].args[0] == "amplitudes.npz"):
+            continue
+        for k, v in kws.items():
+            seen_keys.add(k)
+            uses: Dict[str, set] = {}
+            for x in subterms(v):
+                if x.op == "attr" and x.args[1] in ("t1", "t2"):
+                    uses.setdefault(x.args[1], set())
+            for x in subterms(v):
+                if x.op == "getitem" and x.args[0].op == "attr" and x.args[0].args[1] in ("t1", "t2") and \
+                        x.args[1].op == "const":
+                    uses[x.args[0].args[1]].add(x.args[1].args[0])
+            for a_ in uses:
+                if not uses[a_]:
+                    uses[a_] = {None}
+            exp = want.get(k)
+            ok = exp is not None and uses == exp[0]
+            ctx.ob("KEYS-2", f"amplitudes.npz: the array stored under '{k}' is built from the matching cluster amplitudes",
+                   ok, f"built from {dict((a_, sorted(map(str, b_))) for a_, b_ in uses.items())}" +
+                   ("" if ok else f"; expected {dict((a_, sorted(map(str, b_))) for a_, b_ in exp[0].items()) if exp else 'a known key'}"),
+                   pa, e.line)
+    if len(seen_keys) < 7:
+        raise AnalysisError(f"prep_afqmc: only {len(seen_keys)} amplitude arrays reach np.savez('amplitudes.npz', ...)")
 
 
 def _trial_branches(rd) -> Dict[str, ast.AST]:
@@ -205,6 +304,14 @@ def trial_dispatch(ctx):
     rd = p.func("mpi_jax._prep_afqmc")
     ka = keys.key_analysis(p)
     br = _trial_branches(rd)
+    # roles of the locals by their position in the returned tuple
+    # (ham_data, ham, prop, trial, wave_data, sampler, observable, options, MPI)
+    rets = [st for st in rd.node.body if isinstance(st, ast.Return)]
+    if not rets or not isinstance(rets[-1].value, ast.Tuple) or len(rets[-1].value.elts) != 9 or not all(
+            isinstance(e_, ast.Name) for e_ in rets[-1].value.elts):
+        raise AnalysisError("_prep_afqmc does not return the 9-tuple (ham_data, ham, prop, trial, wave_data, ...)")
+    rnames = [e_.id for e_ in rets[-1].value.elts]
+    prop_name, trial_name, wd_name = rnames[2], rnames[3], rnames[4]
     documented = ["rhf", "uhf", "noci", "cisd", "ucisd"]
     methods = ["_calc_overlap", "_calc_overlap_restricted", "_calc_force_bias", "_calc_force_bias_restricted",
                "_calc_energy", "_calc_energy_restricted", "_build_measurement_intermediates", "optimize"]
@@ -215,7 +322,7 @@ def trial_dispatch(ctx):
             continue
         cls = None
         for nd in ast.walk(b):
-            if isinstance(nd, ast.Assign) and isinstance(nd.targets[0], ast.Name) and nd.targets[0].id == "trial" \
+            if isinstance(nd, ast.Assign) and isinstance(nd.targets[0], ast.Name) and nd.targets[0].id == trial_name \
                     and isinstance(nd.value, ast.Call):
                 dn = dotted(nd.value.func) or ""
                 if dn.startswith("wavefunctions."):
@@ -228,7 +335,7 @@ def trial_dispatch(ctx):
         written = {"rdm1"}
         for nd in ast.walk(b):
             if isinstance(nd, ast.Assign) and isinstance(nd.targets[0], ast.Subscript) and \
-                    isinstance(nd.targets[0].value, ast.Name) and nd.targets[0].value.id == "wave_data":
+                    isinstance(nd.targets[0].value, ast.Name) and nd.targets[0].value.id == wd_name:
                 k = _str_const(nd.targets[0].slice)
                 if k:
                     written.add(k)
@@ -248,8 +355,12 @@ def trial_dispatch(ctx):
         for nd in ast.walk(rd.node):
             if isinstance(nd, ast.If) and "options['walker_type']" in ast.unparse(nd.test) and \
                     f"'{wt}'" in ast.unparse(nd.test):
-                body_src = "\n".join(ast.unparse(s) for s in nd.body)
-                found = found or f"prop = propagation.{cls}(" in body_src
+                for body_st in nd.body:
+                    for st in ast.walk(body_st):
+                        if isinstance(st, ast.Assign) and isinstance(st.targets[0], ast.Name) and \
+                                st.targets[0].id == prop_name and isinstance(st.value, ast.Call) and \
+                                dotted(st.value.func) == f"propagation.{cls}":
+                            found = True
         ctx.ob("KEYS-1", f"_prep_afqmc: walker_type '{wt}' binds prop = propagation.{cls}", found, "", rd)
 
 
@@ -319,34 +430,54 @@ def options_defaults(ctx):
 
 
 def ene_err(ctx):
+    """ene_err.txt carries (energy, error bar) in that order from driver.afqmc to run_afqmc; decided by positions."""
     p = ctx.p
     mod = p.module("mpi_jax")
+    # (A, B) = driver.afqmc(...)
+    pair = None
+    for nd in ast.walk(mod.tree):
+        if isinstance(nd, ast.Assign) and isinstance(nd.value, ast.Call) and dotted(nd.value.func) == "driver.afqmc" and \
+                isinstance(nd.targets[0], ast.Tuple) and len(nd.targets[0].elts) == 2 and all(
+                isinstance(e_, ast.Name) for e_ in nd.targets[0].elts):
+            pair = [e_.id for e_ in nd.targets[0].elts]
+    ctx.ob("KEYS-2", "mpi_jax: (energy, error) = driver.afqmc(...)", pair is not None and pair[0] != pair[1], f"{pair}",
+           mod=mod.name)
     w = None
     for nd in ast.walk(mod.tree):
-        if isinstance(nd, ast.Call) and (dotted(nd.func) or "").endswith("savetxt") and nd.args and \
+        if isinstance(nd, ast.Call) and (dotted(nd.func) or "").endswith("savetxt") and len(nd.args) >= 2 and \
                 _str_const(nd.args[0]) == "ene_err.txt":
-            w = ast.unparse(nd.args[1]).replace(" ", "")
+            v = nd.args[1]
+            if isinstance(v, ast.Call) and v.args and isinstance(v.args[0], (ast.List, ast.Tuple)):
+                v = v.args[0]
+            if isinstance(v, (ast.List, ast.Tuple)):
+                w = [e_.id if isinstance(e_, ast.Name) else None for e_ in v.elts]
     ra = p.func("run_afqmc.run_afqmc")
-    r_ok = False
+    lv = None
+    for nd in ast.walk(ra.node):
+        if isinstance(nd, ast.Assign) and isinstance(nd.targets[0], ast.Name) and isinstance(nd.value, ast.Call) and \
+                (dotted(nd.value.func) or "").endswith("loadtxt") and nd.value.args and \
+                _str_const(nd.value.args[0]) == "ene_err.txt":
+            lv = nd.targets[0].id
     rets = [nd for nd in ast.walk(ra.node) if isinstance(nd, ast.Return)]
-    loads = any(isinstance(nd, ast.Call) and (dotted(nd.func) or "").endswith("loadtxt") and nd.args
-                and _str_const(nd.args[0]) == "ene_err.txt" for nd in ast.walk(ra.node))
-    if rets:
-        r_ok = ast.unparse(rets[-1].value).replace(" ", "") in ("(ene_err[0],ene_err[1])", "ene_err[0],ene_err[1]")
+    r_idx = None
+    if rets and isinstance(rets[-1].value, ast.Tuple):
+        r_idx = [e_.slice.value if isinstance(e_, ast.Subscript) and isinstance(e_.value, ast.Name) and e_.value.id == lv
+                 and isinstance(e_.slice, ast.Constant) else None for e_ in rets[-1].value.elts]
     ctx.ob("KEYS-2", "ene_err.txt: written as (energy, error) and read back in that order",
-           w == "np.array([e_afqmc,err_afqmc])" and loads and r_ok, f"writer {w}; reader returns "
-           f"{ast.unparse(rets[-1].value) if rets else '?'}", ra)
-    # the values written are the driver's return values in order
-    ok = False
-    for nd in ast.walk(mod.tree):
-        if isinstance(nd, ast.Assign) and isinstance(nd.value, ast.Call) and dotted(nd.value.func) == "driver.afqmc":
-            ok = ast.unparse(nd.targets[0]).replace(" ", "").strip("()") == "e_afqmc,err_afqmc"
-    ctx.ob("KEYS-2", "mpi_jax: (e_afqmc, err_afqmc) = driver.afqmc(...)", ok, "", mod=mod.name)
+           pair is not None and w == pair and lv is not None and r_idx == [0, 1],
+           f"writer stores {w} (driver results {pair}); reader returns entries {r_idx}", ra)
     drv = p.func("driver.afqmc")
-    rets = [nd for nd in ast.walk(drv.node) if isinstance(nd, ast.Return)]
-    ctx.ob("KEYS-2", "driver.afqmc returns (energy, error)", bool(rets) and
-           ast.unparse(rets[-1].value).replace(" ", "").strip("()") == "e_afqmc,e_err_afqmc", "", drv)
-
+    rets = [nd for nd in drv.node.body if isinstance(nd, ast.Return)]
+    rn = [e_.id if isinstance(e_, ast.Name) else None for e_ in rets[-1].value.elts] if rets and isinstance(
+        rets[-1].value, ast.Tuple) else None
+    from_ba = False
+    if rn and len(rn) == 2 and None not in rn:
+        for nd in ast.walk(drv.node):
+            if isinstance(nd, ast.Assign) and isinstance(nd.targets[0], ast.Tuple) and isinstance(nd.value, ast.Call) and \
+                    (dotted(nd.value.func) or "").endswith("blocking_analysis") and \
+                    [e_.id if isinstance(e_, ast.Name) else None for e_ in nd.targets[0].elts] == rn:
+                from_ba = True
+    ctx.ob("KEYS-2", "driver.afqmc returns (energy, error) as blocking_analysis produced them", from_ba, f"returns {rn}", drv)
 
 
 def prep_dataflow(ctx):
